@@ -22,7 +22,7 @@ ASSUMPTIONS = ['the molecule consensus is the C13 vote restricted to positions w
                'context letters: CG->z, C[ACT]G->x, C[ACT][ACT]->h, anything truncated by the contig end or containing a non-ACGT base -> "."']
 MIN_NONTRIVIAL = {'quick': 200, 'thorough': 25000}
 REQUIRED_MONITORS = ['obs:call_dict_entries', 'obs:reads_with_XM', 'ctx:z', 'ctx:x', 'ctx:h', 'ctx:upper', 'ctx:dot', 'edge:contig_end_calls',
-                     'strand:reverse', 'convention:F', 'convention:R', 'history:caller_reused_on_other_reference', 'obs:reads_of_molecules_without_calls']
+                     'strand:reverse', 'convention:F', 'convention:R', 'history:caller_reused_on_other_reference', 'obs:reads_of_molecules_without_calls', 'lib:deep_molecules']
 SHARD_TIMEOUT = {'quick': 900, 'thorough': 5400}
 
 
@@ -72,7 +72,8 @@ def one_reference(case, acc, r, taps, rnd):
     import pysam
     from singlecellmultiomics.fragment import Fragment, NlaIIIFragment
     from singlecellmultiomics.molecule import TAPS, TAPSMolecule
-    L = r.choice([60, 120, 250, 400])
+    deep = case['i'] % 40 == 7 and rnd == 0
+    L = r.choice([60, 120, 250, 400]) if not deep else 60
     ref = list(''.join(r.choices('ACGT', k=L)))
     if r.random() < 0.3:
         for _ in range(r.randint(1, 4)):
@@ -95,6 +96,9 @@ def one_reference(case, acc, r, taps, rnd):
         ref = ref.replace(expected_base, 'A')
     meth = {p for p, c in enumerate(ref) if c == expected_base and r.random() < 0.5}
     n = r.choice([1, 1, 2, 3, 4, 6])
+    if deep:
+        n = r.choice([255, 256, 257, 258, 300])     # a deeply sequenced molecule: every position is covered by every fragment, the vote counters pass 255 / 256
+        acc.count('lib:deep_molecules')
     frags = []
     covers_edge = r.random() < 0.5
     for fid in range(n):
@@ -102,6 +106,8 @@ def one_reference(case, acc, r, taps, rnd):
         l1, l2 = r.randint(15, 35), r.randint(15, 35)
         span = r.randint(max(l1, l2), min(L, 90))
         start = r.choice([0, 0, L - span]) if covers_edge else r.randint(0, L - span)
+        if deep:
+            kind, l1, l2, span, start = 'pair', 35, 35, L, 0
         end = start + span
         if not reverse:
             r1s, r1e, r2s, r2e = start, start + l1, end - l2, end
